@@ -978,4 +978,13 @@ Section ToposortProofs.
     rewrite E. rewrite firstn_app_le by lia. subst i. rewrite firstn_all.
     intros x Hx. apply Hd in Hx. apply in_rev in Hx. exact Hx.
   Qed.
+  (* with dependencies that cover what the lowering of a table really instantiates (checked per program: TableDepsCollector's
+     output = the declared tables the table's `instance` events name), every table a table refers to has been lowered when
+     its turn comes: table_mapping.get cannot fail with ICE 4474 *)
+  Theorem toposort_covers_refs (refs : nat -> list nat) fuel start l :
+    (forall n, incl (refs n) (dag n)) -> toposort dag fuel start = Some l ->
+    forall i n, nth_error l i = Some n -> incl (refs n) (firstn i l).
+  Proof.
+    intros Hc Ht i n Hi. destruct (toposort_spec fuel start l Ht) as [_ H]. intros x Hx. apply (H i n Hi). apply Hc. exact Hx.
+  Qed.
 End ToposortProofs.
